@@ -204,7 +204,7 @@ GROUPS += [
                   "response, configuration and window symbolic",
     },
     {
-        "id": "C03.recv_gates", "property": ["C03", "C01"], "crate": "core",
+        "id": "C03.recv_gates", "property": ["C03", "C01"], "crate": "core", "priority": 1,
         "harnesses": ["c03_recv_response_"], "jobs": 2, "timeout_s": 1200, "mem_gb": 24,
         "functions": STRAT_FNS + STATE_FNS, "stubs": [NET_STUB],
         "bounds": "the composed receive step recv_response (validate, from, check_trace_id, in_round as wired by the real "
